@@ -7,7 +7,9 @@ configuration, same schedule (thread picked at every synchronisation operation +
 pthread_cond_signal wakes); the C fields, every thread's scheduler status, the queue contents and the
 started/finished job logs are compared after EVERY step.  Independently the harness evaluates the
 property itself on the real state (exactly-once counters, joinJobs postcondition, deadlock, lost wake-up,
-ring capacity): these oracles are what turns a broken tie into a concrete failing schedule.
+ring capacity, lock discipline of the guarded fields, thread limit at job start, tryAdd refusal only without room,
+POOL_sizeof / leaks against an accounting allocator): these oracles are what turns a broken tie into a concrete
+failing schedule.
 Supporting only (never replaces a theorem): seeded sampling (quick), exhaustive preemption-bounded
 schedule enumeration + ASan/UBSan build (thorough).
 """
